@@ -146,5 +146,7 @@ def REGISTER(reg):
     reg("C39", "No live file is deleted and no dead file lingers", run_lsm,
         "LSM.tla!FilesLive/NoLeakPossible (exhaustive; Bug_DeletePinned caught); on the real DB every removal of a table file is validated by TLC "
         "against the versions pinned by open iterators and against every later version, and at quiescence (handles closed, no job running, "
-        "deleter drained) and after reopen the directory must hold exactly the live tables (and as many blob files as are live).",
+        "deleter drained) and after reopen the directory must hold exactly the live tables (and as many blob files as are live). "
+        "Not covered here: files 'still needed for recovery' (WALs, tables referenced only by a WAL record of a flushable ingest) - the store "
+        "is never crashed by this engine; that clause is exercised by the crash workloads of C10/C11 (see DESIGN 13, C39_flushable_ingests_replay).",
         note, "TLA+ model (LSM.tla) + TLC validation of file-removal / pin / directory-listing traces of the real DB", "DESIGN 6/C39", engine="lsm")
